@@ -917,6 +917,7 @@ func (t *hpType) c04(rep specSink, ops []string, w *hpWrite, before, after [][]i
 //   - success: the data after the write must be partialApplied (delPhaseApplied before) - the complete application;
 //   - error:   inside the exact region (no delete elements, no writable element addressed on an in-place path) the
 //     data must be unchanged. Outside it the known findings rejected-but-applied:* live (judged by c04 above).
+//
 // The driver must carry the shape of t and the probed cfg (true for x.d, x.d2 and the world's store drivers).
 func (t *hpType) c04Lean(d *h.Driver, rep specSink, ops []string, w *hpWrite, before, after [][]int, v hpVerdict) {
 	if d == nil || !w.remote || !w.persist || v == hpPanic || !t.viaEngine(w) {
